@@ -585,7 +585,8 @@ fn gen_read_cfg(t: &mut Tape, benign_only: bool) -> ReadCfg {
     let _ = benign_only;
     ReadCfg {
         mode: t.choose(3) as u8,
-        chunk_max: *t.pick(&[65536usize, 1, 2, 3, 7, 64, 1000, 8192]),
+        // (1 << 30: the whole document in one chunk, as a `&[u8]` or a Cursor hands it out)
+        chunk_max: *t.pick(&[65536usize, 1, 2, 3, 7, 64, 1000, 8192, 1 << 30]),
         eintr: if t.chance(1, 3) { *t.pick(&[2u64, 5, 20]) } else { 0 },
         fail_at: None,
         bound: None,
@@ -2137,7 +2138,8 @@ impl C09 {
         guarded("write_xml-large", || Ok(doc.write(&mut w)))?.map_err(|e| Violation::new("write-failed", "large", e.to_string()))?;
         let bytes = Arc::new(std::mem::take(&mut w.accepted));
         let l0 = hostile_prefix("snapshot", &bytes, Pos::AfterRootStart).map(|p| p.len() as u64).unwrap_or(0);
-        let chunk_max = 1usize << 16;
+        // a 64 KiB reader, or the whole file handed out as one buffer
+        let chunk_max = if which == 1 || ctx.chance(1, 2) { 1usize << 16 } else { 1usize << 30 };
         let rcfg = ReadCfg { mode: 0, chunk_max, eintr: 0, fail_at: None, bound: if which == 1 { Some(l0 + MAX_FILE_SIZE + 65536) } else { None } };
         let mut r = reader(ctx, &bytes, rcfg);
         let mut rec = Recorder { ctx: ctx.clone(), recs: Vec::new(), bulk: true };
